@@ -491,12 +491,12 @@ def run_history(case, ctx):
                 coll["calls"] += 1
                 N = sim.N
                 if not (0 <= c.p1 < N and 0 <= c.p2 < N) or c.p1 == c.p2:
-                    problems.append("COLL:collision handed to the resolver with indices p1=%d p2=%d outside 0..N-1 (N=%d)"
+                    problems.append("RES:collision handed to the resolver with indices p1=%d p2=%d outside 0..N-1 (N=%d)"
                                     % (c.p1, c.p2, N))
                     return 0
                 pa, pb = sim.particles[c.p1], sim.particles[c.p2]
                 if pa.y != pa.y or pb.y != pb.y or pa.hash.value in removed_cb or pb.hash.value in removed_cb:
-                    problems.append("COLL:collision handed to the resolver for a particle that has been removed "
+                    problems.append("RES:collision handed to the resolver for a particle that has been removed "
                                     "(hashes %d, %d)" % (pa.hash.value, pb.hash.value))
                     return 0
                 ret = mergefn(sp, c)
@@ -553,6 +553,8 @@ def run_history(case, ctx):
                     if p.startswith("HARNESS:"):
                         raise RuntimeError(p)
                 if problems:
+                    if problems[0].startswith("RES:"):
+                        raise Violation("%s collision search: %s" % (cfg["collision"], problems[0][4:]), step=steps_done)
                     if problems[0].startswith("COLL:"):
                         raise Violation("tree invariant broken at the moment the collision search uses the tree: %s"
                                         % problems[0][5:], step=steps_done)
@@ -618,6 +620,8 @@ def run_history(case, ctx):
             if event_at is None:
                 event_at = steps_done
         elif kind == "remove_cb":
+            # (with tree gravity and a DIRECT search the flagged particle (y = NaN) used to be reported as colliding with
+            # every other particle: fixed in /repo, regression case corpus/C15/fixed-direct-search-flagged-particle.json)
             del pending[:]
             pending.append([op[1], op[2]])
         elif kind == "walk":
